@@ -275,6 +275,11 @@ def run(chk, prog):
     r = ev.eval_fn(c.methods["__call__"], c.module, c)
     ok = is_t(r.ret, "loop") and is_t(r.ret[3], "call") and is_t(r.ret[3][1], "attr") and r.ret[3][1][2] == "get_subselection" and r.ret[2] == SELF and r.ret[3][1][1] == SELF and r.ret[3][2] == (mk_elem(r.ret[1]),)
     ok = ok and is_t(r.ret[1], "phi") and r.ret[1][2] == ADDR and r.ret[1][3] == ("tuple", (ADDR,))
+    if not ok:
+        # the same left fold written by structural recursion on the address: S(a) = S.sub(a) for one component, S(()) = S, S((h, *t)) = S.sub(h)(t)
+        gs_ = lambda x_: ("call", ("attr", SELF, "get_subselection"), (x_,), ())
+        rec_ = ("call", gs_(mk_proj(ADDR, 0)), (("slice", ADDR, 1, None),), ())
+        ok = r.ret == ("phi", ("isinst", ADDR, "tuple"), ("phi", ADDR, rec_, SELF), gs_(ADDR))
     chk.require(ok, "SEL-OPS", "Selection.__call__", "left fold of get_subselection over the address components (hence S(a)[b] == S[a, b])", derived=show(r.ret)[:200], expected="for comp in addr: sub = sub.get_subselection(comp), starting from self", where=W(c, "__call__"))
     r = ev.eval_fn(c.methods["__getitem__"], c.module, c)
     chk.require(r.ret == chkc(("call", SELF, (ADDR,), ())), "SEL-OPS", "Selection.__getitem__", "membership", derived=show(r.ret), expected="self(addr).check()", where=W(c, "__getitem__"))
